@@ -122,7 +122,7 @@ theorem ahead_refines (s : State) (min : Nat) (hi : Inv s) (hmin : min ≤ 2 ^ 6
         · simp [obsOf, specAhead, absN, hf', hne, hnle, b3, b2]
         · simp [specAhead, absN, hf', hnle, b3, a2, a1, g2]
     | fatal =>
-      obtain ⟨a1, a2, a3⟩ := g4
+      obtain ⟨_, a1, a2, a3⟩ := g4
       have hnle : ¬ min ≤ (remaining s).length := by omega
       refine ⟨by simp [obsOf, specAhead, absN, hf', hnle, a3], ?_, by simp⟩
       simp [specAhead, absN, hf', hnle, a3, a1, g2]
